@@ -21,7 +21,15 @@ TYPES = {
     'string': dict(opts={'type': 'string', 'constraints': {'maxLength': 3}}, valid=['ab', 'abc', 'a'], invalid=['abcd', 'toolong']),
     'array': dict(opts={'type': 'array'}, valid=['[1,2]', '[]', [1]], invalid=['{"a":1}', '[1,']),
 }
-POLICIES = ['raise', 'drop', 'ignore', 'clear', 'custom4-keep', 'custom4-drop', 'custom5-keep']
+POLICIES = ['raise', 'drop', 'ignore', 'clear', 'custom4-keep', 'custom4-drop', 'custom5-keep', 'custom5-by-field']
+# validate() only: the three checked fields share a type but differ in constraints/options; the same lexical value is valid
+# for one field and invalid for another (cells of one row are equal on purpose)
+MIXED = {
+    'string-mixed': {'f1': {'type': 'string'}, 'f2': {'type': 'string', 'constraints': {'maxLength': 3}},
+                     'f.': {'type': 'string', 'constraints': {'minLength': 5}}, 'values': ['abcd', 'ab', 'abcdef', None]},
+    'number-mixed': {'f1': {'type': 'number'}, 'f2': {'type': 'number', 'decimalChar': ','},
+                     'f.': {'type': 'number', 'constraints': {'maximum': 2}}, 'values': ['1.5', '1,5', '3', None]},
+}
 FIELDS = ['f1', 'f2', 'f.', 'g']
 
 
@@ -50,8 +58,14 @@ def checked_fields(nameform):
 
 def build(case, log):
     tname, policy, via = case['type'], case['policy'], case['via']
-    t = TYPES[tname]
-    rows = concrete(tname, [tuple(p) for p in case['pattern']])
+    if tname in MIXED:
+        mx = MIXED[tname]
+        rows = [{'id': rid, 'f1': mx['values'][vi], 'f2': mx['values'][vi], 'f.': mx['values'][vi], 'g': 'keep-%d' % rid}
+                for rid, vi in enumerate(case['pattern'])]
+        t = {'opts': {'type': mx['f1']['type']}}
+    else:
+        t = TYPES[tname]
+        rows = concrete(tname, [tuple(p) for p in case['pattern']])
     if case.get('transform'):
         for r in rows:
             for f in ('f1', 'f2', 'f.'):
@@ -60,7 +74,10 @@ def build(case, log):
     declared = dict(t['opts'], format=t['opts'].get('format', 'default')) if via == 'validate' else {'type': 'any', 'format': 'default'}
     fields = [{'name': 'id', 'type': 'integer', 'format': 'default'}]
     for f in ('f1', 'f2', 'f.'):
-        fields.append(dict(declared, name=f))
+        if tname in MIXED:
+            fields.append(dict(MIXED[tname][f], name=f, format='default'))
+        else:
+            fields.append(dict(declared, name=f))
     fields.append({'name': 'g', 'type': 'string', 'format': 'default'})
     other_rows = [dict(r, id=100 + r['id']) for r in copy.deepcopy(rows)]
     st = mkstate([('other', fields, other_rows), ('t', fields, rows)])
@@ -74,9 +91,14 @@ def build(case, log):
     def handler5(res_name, row, i, e, field):
         log.append([res_name, row.get('id'), i, field.name if field is not None else None])
         return True
+
+    def handler5_by_field(res_name, row, i, e, field):
+        # drop the row when f1 or f2 is bad, keep it for any other field
+        log.append([res_name, row.get('id'), i, field.name if field is not None else None])
+        return field is None or field.name not in ('f1', 'f2')
     sv = core.dataflows.base.schema_validator
     on_error = {'raise': None, 'drop': sv.drop, 'ignore': sv.ignore, 'clear': sv.clear, 'custom4-keep': handler4(True),
-                'custom4-drop': handler4(False), 'custom5-keep': handler5}[policy]
+                'custom4-drop': handler4(False), 'custom5-keep': handler5, 'custom5-by-field': handler5_by_field}[policy]
     kw = {}
     if on_error is not None:
         kw['on_error'] = on_error
@@ -105,10 +127,13 @@ def selected_resources(case):
 
 def model(case, rows, resname):
     """Returns dict(raise=(index, rowid) | None, out=[rows], calls=[...])."""
-    t = TYPES[case['type']]
     checked = checked_fields(tuple(case['name'])) if case['via'] == 'set_type' else ['f1', 'f2', 'f.']
-    fd = dict(t['opts'], name='x', format=t['opts'].get('format', 'default'))
-    field = tableschema.Field(fd, missing_values=[''])
+    if case['type'] in MIXED:
+        fobj = {f: tableschema.Field(dict(MIXED[case['type']][f], name=f, format='default'), missing_values=['']) for f in ('f1', 'f2', 'f.')}
+    else:
+        t = TYPES[case['type']]
+        fd = dict(t['opts'], name='x', format=t['opts'].get('format', 'default'))
+        fobj = {f: tableschema.Field(fd, missing_values=['']) for f in ('f1', 'f2', 'f.')}
     policy = case['policy']
     out, calls = [], []
     for i, row in enumerate(rows):
@@ -122,13 +147,13 @@ def model(case, rows, resname):
                 v = v[1:]
                 r[f] = v
             try:
-                r[f] = field.cast_value(v)
+                r[f] = fobj[f].cast_value(v)
             except tableschema.exceptions.CastError:
                 if policy == 'raise':
                     return {'raise': (i, row['id']), 'out': None, 'calls': calls}
-                calls.append([resname, row['id'], i, f if policy == 'custom5-keep' else None])
-                if policy in ('drop', 'custom4-drop'):
-                    keep = False
+                calls.append([resname, row['id'], i, f if policy.startswith('custom5') else None])
+                if policy in ('drop', 'custom4-drop') or (policy == 'custom5-by-field' and f in ('f1', 'f2')):
+                    keep = False          # a row is dropped as soon as one verdict says so
                 elif policy == 'clear':
                     r[f] = None
         if keep:
@@ -222,7 +247,7 @@ def check(case):
                 want = TYPES[case['type']]['opts']['type'] if (f['name'] in chk and rname in sel) else ('any' if f['name'] in ('f1', 'f2', 'f.') else None)
                 if want and f['type'] != want:
                     viol.append(('schema/%s' % case['via'], '%s: field %s of %s declared %s, expected %s' % (label, f['name'], rname, f['type'], want)))
-    nontrivial = any('i' in p for p in case['pattern'])
+    nontrivial = case['type'] in MIXED or any('i' in p for p in case['pattern'])
     return viol, 'ok' if not viol else 'violated', nontrivial
 
 
@@ -256,8 +281,20 @@ def cases(tier):
     return out
 
 
+def mixed_cases(tier):
+    out = []
+    import itertools as it
+    for tname, mx in MIXED.items():
+        n = len(mx['values'])
+        for k in (1, 2, 3) if tier == 'thorough' else (1, 2):
+            for pat in it.product(range(n), repeat=k):
+                for pol in POLICIES:
+                    out.append({'via': 'validate', 'type': tname, 'policy': pol, 'pattern': list(pat)})
+    return out
+
+
 def run(run):
-    cs = cases(run.tier)
+    cs = cases(run.tier) + mixed_cases(run.tier)
     e2.run_cases(run, __name__, cs, batch=200)
     run.rule = ('per target type (integer, number, boolean, date with format, year, string with maxLength, array): every '
                 'pattern of cell classes {valid, invalid, null} over <=%d rows x 2 checked fields (lexical values assigned '
